@@ -116,7 +116,7 @@ class Ctx:
         return d
 
     def tlc(self, module, cfg=None, workers=1, heap="4g", timeout=1800, extra=(), files=(),
-            dump=None, defines=None, allow_violation=False, simulate=None, maxset=None):
+            dump=None, defines=None, allow_violation=False, simulate=None, maxset=None, coverage=False):
         """Run TLC on spec/<module>.tla with spec/<cfg>.cfg. Returns dict(out, generated, distinct, dir, dump, rc)."""
         d = self._specdir(files)
         cfg = cfg or module
@@ -136,6 +136,8 @@ class Ctx:
             cmd += ["-dump", dump_path]
         if simulate:
             cmd += ["-simulate", simulate]
+        if coverage:
+            cmd += ["-coverage", "1"]
         cmd += list(extra) + [module + ".tla"]
         self.tlc_cmds.append(" ".join(cmd[cmd.index("tlc2.TLC"):]).replace(d + "/", ""))
         t = time.time()
@@ -164,8 +166,23 @@ class Ctx:
         return {"out": out, "generated": gen, "distinct": dist, "dir": d, "dump": dump_path, "rc": p.returncode, "ok": ok}
 
     def model_check(self, module, cfg=None, count=True, **kw):
-        """Leg M: exhaustive TLC run; a property failure of the *model* is a machinery failure."""
+        """Leg M: exhaustive TLC run; a property failure of the *model* is a machinery failure.
+        Thorough tier: run with -coverage 1; an action of the next-state relation that was never taken is vacuity (exit 2);
+        the number of never-evaluated sub-expressions is recorded."""
+        if self.tier == "thorough" and "coverage" not in kw and not os.environ.get("VERIF_NOCOVERAGE"):
+            kw["coverage"] = True
         r = self.tlc(module, cfg, **kw)
+        if kw.get("coverage"):
+            acts = re.findall(r"^<(\w+) line \d+, col \d+ to line \d+, col \d+ of module (\w+)>: (\d+):(\d+)\s*$", r["out"], re.M)
+            last = {}
+            for name, mod, d, t in acts:          # the last report wins (TLC prints interim statistics too)
+                last[(name, mod)] = (int(d), int(t))
+            dead = sorted("%s!%s" % (m, n) for (n, m), (d, t) in last.items() if t == 0)
+            zero_expr = len(re.findall(r"^\s+\|*line \d+, col \d+ to line \d+, col \d+ of module \w+: 0\s*$", r["out"], re.M))
+            self.extra.setdefault("coverage", []).append({"model": "%s/%s" % (module, cfg or module), "actions": len(last),
+                                                          "actions_never_taken": dead, "subexpressions_never_evaluated": zero_expr})
+            if dead:
+                raise Machinery("vacuity: action(s) never taken in %s/%s: %s" % (module, cfg or module, dead))
         if count:
             self.states += r["distinct"]
             self.transitions += r["generated"]
